@@ -152,6 +152,10 @@ def gen_graph(rng, nmax, share_containers=False):
     if kind == 'list' and rng.random() < 0.12:
       # a long list: positions 10, 11 sort before 2 as strings
       return ['tree', kind, [[j, rng.choice([['ref', rng.randrange(n)], ['arr', rng.randint(0, 90)], ['static', rng.randint(0, 9)]])] for j in range(rng.randint(11, 13))]]
+    if kind == 'dict' and rng.random() < 0.3:
+      # integer keys whose numeric order differs from the order of their string forms
+      ks = sorted(rng.sample([2, 8, 10, 16, 32], rng.randint(2, 3)))
+      return ['tree', kind, [[k, gen_val(depth - 1)] for k in ks]]
     if kind == 'dict':
       ks = sorted(rng.sample(DKEYS, min(m, len(DKEYS))))
       return ['tree', kind, [[k, gen_val(depth - 1)] for k in ks]]
